@@ -23,7 +23,7 @@ LEVEL_TEXT = ("Fault-point enumeration per sampled model: the exception is injec
               "(thorough tier); the set of models is a seeded sample.")
 LEVEL_NOTE = "Trusted: structural snapshot by object identity; harness observers as injection points."
 PROBES = ["clean_run", "time_limit_run", "injected_run", "inject_phase_init", "inject_phase_updated", "inject_phase_allocated",
-          "inject_phase_performed", "inject_phase_recorded", "with_due_helper_tasks", "with_conveyor", "fs_order_checked", "reverse_off"]
+          "inject_phase_performed", "inject_phase_recorded", "with_due_helper_tasks", "with_conveyor", "fs_order_checked", "reverse_off", "inject_base_exception"]
 
 
 def budget(tier):
@@ -45,6 +45,7 @@ def gen(rng, tier):
     spec["all_points"] = (tier == "thorough")
     spec["points"] = [[rng.randint(0, 12), rng.choice(["init", "updated", "allocated", "performed", "recorded"])] for _ in range(3)]
     spec["limit"] = rng.randint(0, 6)
+    spec["base_exc"] = rng.random() < 0.6
     return spec
 
 
@@ -222,8 +223,11 @@ def run(spec):
                     if cand:
                         sel.append(cand[k % len(cand)])
             sel = sorted(set(sel), key=lambda q: (q[0], ["init", "updated", "allocated", "performed", "recorded"].index(q[1])))
-        for (k, ph) in sel:
-            p, before, rec, out = one_backward(spec, inject={"step": k, "phase": ph})
+        for n_inj, (k, ph) in enumerate(sel):
+            base_exc = bool(spec.get("base_exc")) and n_inj % 2 == 1  # every second point aborts with a BaseException
+            p, before, rec, out = one_backward(spec, inject={"step": k, "phase": ph, "base": base_exc})
+            if base_exc:
+                res.count("inject_base_exception")
             executed += 1
             res.count("injected_run")
             res.count("inject_phase_" + ph)
@@ -231,8 +235,8 @@ def run(spec):
                 res.count("injection_did_not_fire")
             if m["deps"] and k < max(0, n_clean - 1):
                 nontrivial = True
-            what = "backward_simulate aborted by an exception at step %d phase %s" % (k, ph)
-            check_after(res, spec, p, before, what, "injected_" + ph, dtwin)
+            what = "backward_simulate aborted by %s at step %d phase %s" % ("a BaseException (like KeyboardInterrupt)" if base_exc else "an exception", k, ph)
+            check_after(res, spec, p, before, what, ("injected_base_" if base_exc else "injected_") + ph, dtwin)
             if res.violations:
                 break
     res.stats["evaluations_override"] = executed
